@@ -5,6 +5,7 @@ import typing as t
 from functools import partial
 
 from sqlglot import exp, generator, transforms
+from sqlglot.helper import is_int
 from sqlglot.dialects.dialect import (
     DATE_ADD_OR_SUB,
     approx_count_distinct_sql,
@@ -127,7 +128,7 @@ def _add_date_sql(self: HiveGenerator, expression: DATE_ADD_OR_SUB) -> str:
         multiplier *= -1
 
     increment = expression.expression
-    if isinstance(increment, exp.Literal):
+    if isinstance(increment, exp.Literal) and (increment.is_number or is_int(increment.name)):
         value = increment.to_py() if increment.is_number else int(increment.name)
         increment = exp.Literal.number(value * multiplier)
     elif multiplier != 1:
@@ -504,7 +505,7 @@ class HiveGenerator(generator.Generator):
             expression.set("expressions", None)
         elif expression.is_type("float"):
             size_expression = expression.find(exp.DataTypeParam)
-            if size_expression:
+            if size_expression and is_int(size_expression.name):
                 size = int(size_expression.name)
                 expression.set("this", exp.DType.FLOAT if size <= 32 else exp.DType.DOUBLE)
                 expression.set("expressions", None)
